@@ -1,7 +1,7 @@
 (* C01: the structural facts re-read from the source (GenXslt.v, translator/gen_xslt.py) are the ones
    XsltEventsDefs.v and XsltVarsDefs.v were written for. Each line names the definition that depends on it. *)
 From Coq Require Import Bool.
-Require Import XV.GenXslt.
+Require Import XV.GenXslt XV.XsltVariantDefs.
 
 Definition facts_as_modelled : bool :=
   negb src_start_clears_pending_attrs            (* eng_start keeps pattrs *)
@@ -24,10 +24,9 @@ Definition facts_as_modelled : bool :=
   && src_children_frame_iff_has_variables        (* exec_ins Block/Tmpl: has_decl *)
   && src_foreach_renews_frame_per_node           (* one Block per for-each iteration *)
   && src_apply_templates_marker_then_params && src_call_template_marker_then_params   (* exec_ins Invoke *)
-  && src_param_default_only_when_not_passed.     (* exec_param *)
-
-(* which of the two modelled variants of template-instance end the source has (XsltVarsDefs.end_template) *)
-Definition reset_variant : bool := src_params_reset_when_template_frame_popped.
+  && src_param_default_only_when_not_passed      (* exec_param *)
+  && src_execute_loop_as_modelled                (* XsltLoopDefs.step: Outer / Inner states of execute() *)
+  && src_default_invoker_is_parent_next_is_sibling.   (* XsltLoopDefs.step: frames *)
 
 Lemma facts_as_modelled_true : facts_as_modelled = true.
 Proof. reflexivity. Qed.
